@@ -8,8 +8,10 @@ package share
 import (
 	"bytes"
 	"context"
+	"encoding/json"
 	"fmt"
 	"sort"
+	"strings"
 
 	"github.com/celestiaorg/celestia-app/v9/pkg/appconsts"
 	"github.com/celestiaorg/go-square/v4/inclusion"
@@ -17,6 +19,7 @@ import (
 	coremerkle "github.com/cometbft/cometbft/crypto/merkle"
 	tmbytes "github.com/cometbft/cometbft/libs/bytes"
 	tmproto "github.com/cometbft/cometbft/proto/tendermint/types"
+	coretypes "github.com/cometbft/cometbft/types"
 )
 
 type vRun struct{ From, To int } // maximal same-namespace run [From,To) of the ODS
@@ -315,6 +318,118 @@ func vRangeCases(h *GetRangeResult, root []byte, donor *GetRangeResult, otherRoo
 	mut("row-span.start+1", "", func(r *GetRangeResult) { r.Proof.RowProof.StartRow++ })
 	mut("row-span.max", "", func(r *GetRangeResult) { r.Proof.RowProof.StartRow, r.Proof.RowProof.EndRow = 0, ^uint32(0) })
 	mut("label.row-span-shift", "", func(r *GetRangeResult) { r.Proof.RowProof.StartRow++; r.Proof.RowProof.EndRow++ })
+	return append(out, vRangeDegenerate(h, root, otherRoot)...)
+}
+
+// vRangeDegenerate: results whose lengths and range fields make every verifier loop run zero
+// times (everything emptied, wrapped row span), cancelling / empty / inverted share-proof ranges
+// with the data trimmed to the matching (zero) length, wrapped spans with the per-row components
+// trimmed to the matching length; each against the real root, another block's root and two
+// unrelated roots.
+func vRangeDegenerate(h *GetRangeResult, root, otherRoot []byte) []vRangeCase {
+	var out []vRangeCase
+	roots := append([][]byte{root, otherRoot}, vUnrelatedRoots...)
+	emit := func(op, detail string, r *GetRangeResult) {
+		for ri, rt := range roots {
+			out = append(out, vRangeCase{op, fmt.Sprintf("%s root#%d", detail, ri), vCloneRange(r), rt})
+		}
+	}
+	empty := func(nonNil bool) *GetRangeResult {
+		r := &GetRangeResult{Proof: &coretypes.ShareProof{NamespaceID: vCloneB(h.Proof.NamespaceID), NamespaceVersion: h.Proof.NamespaceVersion}}
+		if nonNil {
+			r.Shares = []libshare.Share{}
+			r.Proof.Data = [][]byte{}
+			r.Proof.ShareProofs = []*tmproto.NMTProof{}
+			r.Proof.RowProof.RowRoots = []tmbytes.HexBytes{}
+			r.Proof.RowProof.Proofs = []*coremerkle.Proof{}
+		}
+		return r
+	}
+	// (1) everything emptied, every wrapped span
+	for _, nonNil := range []bool{false, true} {
+		for _, sp := range append(vWrapSpans(0), [2]uint32{0, 0}) {
+			r := empty(nonNil)
+			r.Proof.RowProof.StartRow, r.Proof.RowProof.EndRow = sp[0], sp[1]
+			emit("degenerate.all-emptied", fmt.Sprintf("non-nil=%v span=%d..%d", nonNil, sp[0], sp[1]), r)
+			// the honest shares exposed next to an emptied proof
+			r2 := vCloneRange(r)
+			r2.Shares = append([]libshare.Share{}, h.Shares...)
+			emit("degenerate.proof-emptied-shares-kept", fmt.Sprintf("non-nil=%v span=%d..%d", nonNil, sp[0], sp[1]), r2)
+		}
+	}
+	// (1b) shares and data emptied, per-row parts kept but with ranges that prove nothing
+	for _, rg := range []struct {
+		name string
+		f    func(q *tmproto.NMTProof, i int)
+	}{
+		{"empty-ranges", func(q *tmproto.NMTProof, _ int) { q.End = q.Start }},
+		{"inverted-ranges", func(q *tmproto.NMTProof, _ int) { q.Start, q.End = q.End, q.Start }},
+		{"start-past-end-by-one", func(q *tmproto.NMTProof, _ int) { q.Start = q.End + 1 }},
+		{"zero-zero", func(q *tmproto.NMTProof, _ int) { q.Start, q.End = 0, 0 }},
+		{"negative", func(q *tmproto.NMTProof, _ int) { q.Start, q.End = -2, -2 }},
+		{"max-int32", func(q *tmproto.NMTProof, _ int) { q.Start, q.End = 1<<31-1, 1<<31-1 }},
+	} {
+		for _, nodes := range []bool{true, false} {
+			r := vCloneRange(h)
+			r.Shares, r.Proof.Data = nil, nil
+			for i, q := range r.Proof.ShareProofs {
+				rg.f(q, i)
+				if !nodes {
+					q.Nodes = nil
+				}
+			}
+			emit("degenerate.data-emptied-"+rg.name, fmt.Sprintf("nodes-kept=%v", nodes), r)
+		}
+	}
+	// two entries for the same row whose lengths cancel out (-1 + 1), one share of data less
+	{
+		r := vCloneRange(h)
+		sp := r.Proof.ShareProofs
+		rr := r.Proof.RowProof
+		r.Proof.ShareProofs = append(sp, &tmproto.NMTProof{Start: sp[len(sp)-1].End, End: sp[len(sp)-1].End - 1})
+		r.Proof.RowProof.RowRoots = append(rr.RowRoots, vCloneB(rr.RowRoots[len(rr.RowRoots)-1]))
+		r.Proof.RowProof.Proofs = append(rr.Proofs, vCloneCoreProofs(rr.Proofs[len(rr.Proofs)-1:])...)
+		r.Proof.RowProof.EndRow++
+		if n := len(r.Shares); n > 0 {
+			r.Shares, r.Proof.Data = r.Shares[:n-1], r.Proof.Data[:n-1]
+		}
+		emit("degenerate.cancelling-ranges-data-trimmed", "", r)
+		r2 := vCloneRange(h)
+		for _, q := range r2.Proof.ShareProofs {
+			q.Start, q.End = q.End, q.Start
+		}
+		r2.Proof.ShareProofs = append(r2.Proof.ShareProofs, vCloneNMTProtos(h.Proof.ShareProofs)...)
+		r2.Proof.RowProof.RowRoots = append(r2.Proof.RowProof.RowRoots, r2.Proof.RowProof.RowRoots...)
+		r2.Proof.RowProof.Proofs = append(r2.Proof.RowProof.Proofs, vCloneCoreProofs(r2.Proof.RowProof.Proofs)...)
+		r2.Proof.RowProof.EndRow += uint32(len(h.Proof.ShareProofs))
+		r2.Shares, r2.Proof.Data = nil, nil
+		emit("degenerate.cancelling-ranges-data-emptied", "", r2)
+	}
+	// (2) wrapped spans with the per-row components trimmed to a matching length k in {1, n-1, n}
+	n := len(h.Proof.ShareProofs)
+	seenK := map[int]bool{}
+	for _, k := range []int{1, n - 1, n} {
+		if k < 1 || seenK[k] {
+			continue
+		}
+		seenK[k] = true
+		r := vCloneRange(h)
+		keep := 0
+		for _, q := range r.Proof.ShareProofs[:k] {
+			keep += int(q.End - q.Start)
+		}
+		r.Proof.ShareProofs = r.Proof.ShareProofs[:k]
+		r.Proof.RowProof.RowRoots = r.Proof.RowProof.RowRoots[:k]
+		r.Proof.RowProof.Proofs = r.Proof.RowProof.Proofs[:k]
+		if keep <= len(r.Shares) {
+			r.Shares, r.Proof.Data = r.Shares[:keep], r.Proof.Data[:keep]
+		}
+		for _, sp := range vWrapSpans(uint32(k))[1:3] {
+			q := vCloneRange(r)
+			q.Proof.RowProof.StartRow, q.Proof.RowProof.EndRow = sp[0], sp[1]
+			emit("degenerate.wrapped-span-trimmed", fmt.Sprintf("rows=%d/%d span=%d..%d", k, n, sp[0], sp[1]), q)
+		}
+	}
 	return out
 }
 
@@ -475,10 +590,10 @@ func (c *vC12) checkRanges(b *vBlock, otherRoot []byte, owns func(key string) bo
 			if d == nil {
 				d = res
 			}
-			for _, cs := range vRangeCases(res, b.DataRoot, d, otherRoot, foreign) {
+			exec := func(cs vRangeCase, fp [16]byte) {
 				changed := vFPRangeCase(b.FP, cs.Root, cs.R) != vFPRangeCase(b.FP, b.DataRoot, res)
-				if !c.caseDone(vFPRangeCase(b.FP, cs.Root, cs.R), changed) {
-					continue
+				if !c.caseDone(fp, changed) {
+					return
 				}
 				var verr error
 				work := vCloneRange(cs.R)
@@ -486,21 +601,52 @@ func (c *vC12) checkRanges(b *vBlock, otherRoot []byte, owns func(key string) bo
 					c.st.out("range:panic")
 					c.sink(vOpSig("GetRangeResult.Verify", vPanicKind(pn), cs.Op), fmt.Sprintf("Verify panicked (%s) on operator %s[%s] applied to the result for [%d,%d); block %q",
 						pn, cs.Op, cs.Detail, s, e, b.Spec), rp(cs.Op, s, e))
-					continue
+					return
 				}
 				if verr != nil {
 					c.st.out("range:rejected")
-					c.sample("range/rejected", map[string]any{"block": b.Spec.String(), "range": []int{s, e}, "shape": b.rangeKey(s, e), "operator": cs.Op, "at": cs.Detail, "verify": verr.Error()})
-					continue
+					kind := "range/rejected"
+					if strings.HasPrefix(cs.Op, "degenerate.") {
+						kind = "range/degenerate-rejected"
+					}
+					c.sample(kind, map[string]any{"block": b.Spec.String(), "range": []int{s, e}, "shape": b.rangeKey(s, e), "operator": cs.Op, "at": cs.Detail, "verify": verr.Error()})
+					return
 				}
 				if ok, why := vRangeClaimTrue(b, cs.R, cs.Root); !ok {
 					c.st.out("range:accepted-false-claim")
 					c.sink(vOpSig("GetRangeResult.Verify", "accepts-false-claim", cs.Op), fmt.Sprintf("Verify accepted operator %s[%s] applied to the result for [%d,%d) although %s; block %q layout %s",
 						cs.Op, cs.Detail, s, e, why, b.Spec, b.layout()), rp(cs.Op, s, e))
-					continue
+					return
 				}
 				c.st.out("range:accepted-true-claim")
 				c.st.hist("range_accepted_true_claim_ops", cs.Op)
+			}
+			for _, cs := range vRangeCases(res, b.DataRoot, d, otherRoot, foreign) {
+				fp := vFPRangeCase(b.FP, cs.Root, cs.R)
+				exec(cs, fp)
+				if !strings.HasPrefix(cs.Op, "degenerate.") {
+					continue
+				}
+				// the same degenerate result through its JSON (wire) form
+				c.st.hist("degenerate_cases", "range-result")
+				doc, err := json.Marshal(cs.R)
+				if err != nil {
+					c.st.out("range:degenerate-json-marshal-error")
+					continue
+				}
+				var back GetRangeResult
+				var derr error
+				if pn := vCatch(func() { derr = json.Unmarshal(doc, &back) }); pn != "" {
+					c.sink(vOpSig("GetRangeResult.UnmarshalJSON", vPanicKind(pn), cs.Op), fmt.Sprintf("decoding the JSON form of operator %s[%s] panicked: %s; block %q", cs.Op, cs.Detail, pn, b.Spec), rp(cs.Op, s, e))
+					continue
+				}
+				if derr != nil {
+					c.st.out("range:degenerate-json-decode-error")
+					continue
+				}
+				js := cs
+				js.R, js.Detail = &back, cs.Detail+" via-json"
+				exec(js, newVFPs("range-json-form", fp[:]))
 			}
 			donor = res
 		}
